@@ -10,6 +10,11 @@ def pipeline(ctx, harness_cmd, drv, stdin_data=None):
     """harness | driver ; returns (summary dict, mismatch list, harness rc)"""
     env = dict(os.environ)
     env.update(RUST_BACKTRACE='0')
+    import tempfile
+    os.makedirs(os.path.join(ctx.build, 'tmp'), exist_ok=True)
+    fd, lastfile = tempfile.mkstemp(prefix='last-', dir=os.path.join(ctx.build, 'tmp'))
+    os.close(fd)
+    env['VERIF_LASTFILE'] = lastfile
     limit = '14000' if ctx.tier == 'thorough' else '1500'
     harness_cmd = ['timeout', '-k', '5', limit] + list(harness_cmd)
     p1 = subprocess.Popen(harness_cmd, stdin=subprocess.PIPE if stdin_data is not None else subprocess.DEVNULL,
@@ -42,8 +47,24 @@ def pipeline(ctx, harness_cmd, drv, stdin_data=None):
     p1.wait()
     if summary is None:
         summary = dict(cases=0, mismatches=total, distinct_nontrivial=0, samples=[])
+    rc = p1.returncode
+    # the harness process itself died (stack overflow, failed allocation: these do not unwind): the case it had announced
+    # is a concrete input on which the implementation does not answer
+    try:
+        last = open(lastfile).read()
+    except OSError:
+        last = ''
+    try:
+        os.remove(lastfile)
+    except OSError:
+        pass
+    if rc not in (0, None) and rc != 124 and '\t' in last:
+        op, args = last.split('\t', 1)
+        mism.append(dict(op=op, args=args, real='(panic)', model='?', verdict='panic (the process died with status %s on this case)' % rc))
+        total += 1
+        rc = 0
     summary['mismatches'] = total
-    return summary, mism, p1.returncode
+    return summary, mism, rc
 
 
 def model_print(ctx, drv, cases):
@@ -339,6 +360,7 @@ def run_suite(ctx, spec):
 STATE_CONE = {
     # source files whose state can influence what the property speaks about
     'C19': ('set.rs', 'bdd.rs', 'symbols.rs'),
+    'C13': ('set.rs', 'bdd.rs', 'parser.rs', 'symbols.rs'),
     'default': ('bdd.rs', 'parser.rs', 'symbols.rs'),
 }
 
@@ -347,7 +369,8 @@ def _is_plain_counter(name, decl, lines):
     """an integer Cell / atomic that is only ever bumped and read out by an accessor: every line that mentions it is its
     declaration, an increment, or a bare read (no comparison, no branch, no arithmetic other than + 1 on that line)"""
     import re
-    if not re.search(r'(?:Cell|Atomic)\s*<?\s*(?:usize|u64|u32|U64|Usize|U32)|Atomic(?:Usize|U64|U32)', decl):
+    # a Cell (not a RefCell) can only hold Copy data: numbers, flags, small structs of them - never a diagram or a table
+    if re.search(r'\b(?:RefCell|Mutex|RwLock)\b', decl) or not re.search(r'\bCell\s*<|\bAtomic\w+', decl):
         return False
     for code in lines:
         if not re.search(r'\b%s\b' % re.escape(name), code):
@@ -384,7 +407,7 @@ def lint_state(ctx):
                 continue
             mutable_ty = re.search(r'\b(?:RefCell|Cell|Mutex|RwLock|Atomic\w+)\b', code)
             # struct fields
-            m = re.match(r'\s*(?:pub(?:\([a-z]+\))?\s+)?(\w+)\s*:\s*(.*(?:RefCell|Cell|Mutex|RwLock|Atomic\w+)\s*<?.*)', code)
+            m = re.match(r'\s*(?:pub(?:\([a-z]+\))?\s+)?(\w+)\s*:\s*((?:[A-Za-z_][\w:]*\s*<\s*)*(?:(?:RefCell|Cell|Mutex|RwLock)\s*<|Atomic(?:Usize|U64|U32|U16|U8|Bool|Isize|I64|I32)\b).*)', code)
             if m and '(' not in code.split(':')[0] and 'fn ' not in code and not re.match(r'\s*(?:pub\s+)?static\b', code):
                 if (base, m.group(1)) not in allowed_state:
                     if _is_plain_counter(m.group(1), m.group(2), lines):
@@ -431,7 +454,7 @@ def lint_c13(ctx):
             m = re.search(r'\bfn\s+(\w+)', code)
             if m:
                 fn = m.group(1)
-            if not path.endswith('parser_io.rs') and re.search(r'\.nodes\b|\bnodes\s*:', code) and 'pub nodes' not in code:
+            if not path.endswith('parser_io.rs') and re.search(r'\.nodes\b', code):
                 if not (path.endswith('bdd.rs') and fn in allowed_nodes):
                     problems.append('%s:%d: `nodes` touched in fn %s' % (os.path.relpath(path, ctx.repo), ln, fn))
             if re.search(r'Rc::new\(\s*(BDD|Self)(::<[^>]*>)?::Choice|(BDD|Self)(::<[^>]*>)?::Choice\(\s*Rc::new', code) or \
